@@ -827,6 +827,15 @@ func (s *recStore) Push(ctx context.Context, d ocispec.Descriptor, r io.Reader) 
 	return err
 }
 
+// mkdirPlain creates a harness directory (and its parents) 0755 whatever the scenario's umask is.
+func mkdirPlain(dir string) {
+	old := syscall.Umask(0o022)
+	defer syscall.Umask(old)
+	if err := os.MkdirAll(dir, 0o755); err != nil {
+		panic(err)
+	}
+}
+
 // oracleFail records a violation (and, in the unprivileged child, a structured copy for the parent).
 func oracleFail(id, sig, msg string, sc *Scenario) {
 	run.OracleFail(id, sig, msg, sc)
@@ -1407,7 +1416,8 @@ func runScenario(sc *Scenario) {
 					ndirs++
 				}
 			}
-			if ndirs == 1 {
+			// (under an owner-bit umask of the unprivileged run a plain-file item may be the one that failed)
+			if ndirs == 1 && (!ownerBits || len(sc.Items) == 1) {
 				run.Case(id, input, fmt.Sprintf("B%d ", b2i(isBenign))+strings.SplitN(errClass(cerr), ":", 2)[0])
 				run.Nontrivial(input)
 			}
@@ -1504,8 +1514,7 @@ func tamperCases(ctx context.Context, sc *Scenario, scid, tail, work string, i i
 			continue
 		}
 		dir := filepath.Join(work, "tamper", fmt.Sprint(k))
-		os.MkdirAll(dir, 0o755)
-		os.Chmod(dir, 0o755)
+		mkdirPlain(dir)
 		st, _ := file.New(dir)
 		st.PreservePermissions = sc.Preserve
 		nd := d
@@ -1656,8 +1665,7 @@ func foreignCase(ctx context.Context, sc *Scenario, tail, work string, it Item) 
 		Annotations: map[string]string{ocispec.AnnotationTitle: unhx(it.Name), file.AnnotationUnpack: "true",
 			file.AnnotationDigest: string(digest.FromBytes(tarb.Bytes()))}}
 	dir := filepath.Join(work, "foreign")
-	os.MkdirAll(dir, 0o755)
-	os.Chmod(dir, 0o755)
+	mkdirPlain(dir)
 	defer os.RemoveAll(dir)
 	st, err := file.New(dir)
 	if err != nil {
